@@ -1185,6 +1185,33 @@ extern "C" void *nsim_sys_malloc (size_t n) {
 	sched_point ();
 	return p;
 }
+extern "C" void *nsim_sys_malloc (size_t n);
+extern "C" void *nsim_sys_calloc (size_t a, size_t b) {
+	if (!g.in_run || !g.cur) return ::calloc (a, b);
+	// same model as malloc (the caller's name decides whether it is a constructor allocation); zero-filled
+	uintptr_t pc = (uintptr_t) __builtin_return_address (0);
+	const char *fn = rt_symname (pc);
+	g.nmallocs++;
+	TRACE ("calloc(%zu,%zu) from %s", a, b, fn);
+	if (strstr (fn, "nsync_note_new") || strstr (fn, "nsync_counter_new")) {
+		g.ctor_allocs++;
+		if ((nsim_cfg.fail_alloc_index > 0 && g.ctor_allocs == nsim_cfg.fail_alloc_index) || choose_fault (CH_F_ALLOC)) {
+			if (nsim_cfg.fail_alloc_index > 0) g.faults_fired[CH_F_ALLOC]++;
+			g.alloc_failures++; g.cur->alloc_failures++; g.cur->no_write_window = 1;
+			sched_point ();
+			return NULL;
+		}
+	}
+	void *p = arena_alloc (a * b, pc);
+	::memset (p, 0, a * b);
+	sched_point ();
+	return p;
+}
+extern "C" void *nsim_sys_realloc (void *p, size_t n) {
+	if (!g.in_run || !g.cur) return ::realloc (p, n);
+	rt_violation (NULL, V_ORACLE, "realloc", "simulated code called realloc, which the allocator model does not support");
+	end_run (RV_VIOLATION);
+}
 extern "C" void nsim_sys_free (void *p) {
 	if (!g.in_run || !g.cur) { ::free (p); return; }
 	if (!p) return;
